@@ -694,5 +694,14 @@ fn main() {
             }
         }
     }
+    // totals of what actually entered the kernel, for the independent strace observer (thorough tier)
+    {
+        let all = interpose::since(0);
+        let kernel: Vec<&interpose::Rec> = all.iter().filter(|r| !r.scripted).collect();
+        rep.obs("sendto_entered_kernel", kernel.len() as u64);
+        rep.obs("sendto_kernel_accepted", kernel.iter().filter(|r| r.result >= 0).count() as u64);
+        rep.obs("sendto_kernel_accepted_bytes", kernel.iter().filter(|r| r.result >= 0).map(|r| r.result as u64).sum());
+        rep.obs("sendto_scripted_failures", all.iter().filter(|r| r.scripted).count() as u64);
+    }
     std::process::exit(rep.finish(args.get("out")));
 }
